@@ -191,10 +191,10 @@ def gen_integral(repo, res):
     "coefficients or arguments), emit a descriptor <name> whose only kernel slot is the one of the scalar type and points to a kernel defined in "
     "the same text with scalar/real parameter types; counts, positions, names, points (row-major, exact), value shape, rank, "
     "coordinate element hash carry the IR values in both backends; the alias is declared and points to the descriptor",
-    min_instances=16,
+    min_instances=24,
 )
 def gen_expression_desc(repo, res):
-    from ..npmodel import NDArr
+    from ..npmodel import NDArr, NPFloat32
 
     c0, c1, c2 = Node("Coefficient", name="f"), Node("Coefficient", name="g"), Node("Coefficient", name="h")
     # like-typed descriptor fields take pairwise different values in at least one sample (3 coefficients, 4 constants, 5 points, dimension 2,
@@ -204,6 +204,10 @@ def gen_expression_desc(repo, res):
             dict(name="expression_abc", alias="expression_p_flux", shape=(6,), tshape=[4], numbering={c0: 0, c1: 1, c2: 2}, positions=[0, 2, 5], cnames=["f", "g", "h"],
                  knames=["kappa", "mu", "c2", "c3"], hash=777000777,
                  points=NDArr([[0.25, 0.5], [0.1, 0.7], [1.0 / 3.0, 0.125], [0.0, 1.0], [0.75, 0.0625]], (5, 2))),
+        # points handed over in single precision: the tables are tabulated at the float32 values, the descriptor must list the same numbers
+        "points given as a float32 array":
+            dict(name="expression_f", alias="expression_p_1", shape=(), tshape=[], numbering={c0: 0}, positions=[0], cnames=["f"], knames=[], hash=9,
+                 points=NDArr([[NPFloat32(0.1), NPFloat32(0.7)], [NPFloat32(0.3), NPFloat32(0.25)]], (2, 2))),
         "matrix-valued, no coefficients or constants, one point in 3D, no argument":
             dict(name="expression_q", alias="expression_p_0", shape=(2, 2), tshape=[], numbering={}, positions=[], cnames=[], knames=[], hash=5,
                  points=NDArr([[0.5, 0.25, 0.125]], (1, 3))),
@@ -238,7 +242,7 @@ def gen_expression_desc(repo, res):
                     raise AnalysisError(f"{be} expression generator did not return a tuple of texts")
                 text = out[-1]
                 obj = s["name"]
-                pts = [v for row in s["points"].tolist() for v in row]
+                pts = [float(v) for row in s["points"].tolist() for v in row]
                 fail = lambda msg: res.fail(key, f"{be} `{label}` [{scalar}]: {msg}", loc, props=props)  # noqa: E731
                 if MARK not in text:
                     fail("the formatted kernel body is not part of the emitted text")
